@@ -500,9 +500,16 @@ func (u *Upgrade) failRelease(rel *release.Release, created kube.ResourceList, e
 			for _, e := range errs {
 				errorList = append(errorList, e.Error())
 			}
-			return rel, errors.Wrapf(fmt.Errorf("unable to cleanup resources: %s", strings.Join(errorList, ", ")), "an error occurred while cleaning up resources. original upgrade error: %s", err)
+			cleanupErr := errors.Wrapf(fmt.Errorf("unable to cleanup resources: %s", strings.Join(errorList, ", ")), "an error occurred while cleaning up resources. original upgrade error: %s", err)
+			if !u.Atomic {
+				return rel, cleanupErr
+			}
+			// With atomic set the rollback below still has to happen; the failed
+			// cleanup is reported together with the original error.
+			err = cleanupErr
+		} else {
+			slog.Debug("resource cleanup complete")
 		}
-		slog.Debug("resource cleanup complete")
 	}
 	if u.Atomic {
 		slog.Debug("upgrade failed and atomic is set, rolling back to last successful release")
